@@ -18,7 +18,7 @@ Definition bstep (batch_size : N) (s : BM) (e : bev) : BM * list (list tx) :=
       let sz := cur_size s + N.of_nat (length t) in
       let c := cur s ++ [t] in
       if g_batch_full sz batch_size then (mkBM [] 0, [c]) else (mkBM c sz, [])
-  | BTimer => if g_timer_seals (is_nil (cur s)) then (mkBM [] 0, [cur s]) else (s, [])
+  | BTimer => if g_timer_seals (is_nil (cur s)) (cur_size s) batch_size then (mkBM [] 0, [cur s]) else (s, [])
   end.
 
 Fixpoint brun (bs : N) (s : BM) (es : list bev) : BM * list (list tx) :=
